@@ -50,6 +50,8 @@ pub struct Spec {
 pub fn scenario_names() -> Vec<&'static str> {
     vec!["status", "login-transfer", "pipelined-login-transfer", "eager-login-transfer", "cookie-transfer", "eager-cookie-transfer", "login-no-target", "big-frames-slow-discovery", "slow-discovery", "slow-filter", "slow-strategy", "silent-client-slow-routing",
         // the same exchanges under frame limits at and beyond the place where a length prefix may have three bytes
+        // a chatty client (40 plugin messages before Client Information) and a refusal after slow routing
+        "many-plugin-messages", "slow-discovery-no-target",
         "status@2097151", "eager-login-transfer@2097151", "eager-cookie-transfer@16384", "pipelined-login-transfer@2147483647"]
 }
 
@@ -95,6 +97,20 @@ fn scenario(name: &str) -> Case {
             steps.push(ci);
             case.script = steps;
             case.adapters.disc_ms = 20_000;
+        }
+        "many-plugin-messages" => {
+            let mut steps = Login::default().steps();
+            let ci = steps.pop().unwrap();
+            for k in 0..40u8 {
+                steps.push(st(When::Idle, Act::Frame { id: 2, body: common::refs::codec::W::new().string("minecraft:register").raw(&[b'a' + k % 26; 42]).done() }));
+            }
+            steps.push(ci);
+            case.script = steps;
+        }
+        "slow-discovery-no-target" => {
+            case.script = Login { locale: "de_de".into(), ..Default::default() }.steps();
+            case.adapters.disc_ms = 20_000;
+            case.adapters.strat = StratPlan::None;
         }
         "slow-discovery" | "slow-filter" | "slow-strategy" => {
             case.script = Login::default().steps();
